@@ -443,7 +443,7 @@ class Snap(object):
         return recs
 
 
-def bases_assignable(oldc, newc):
+def bases_assignable(oldc, newc, oldmod=None):
     """Would CPython accept the __bases__ assignment of _livepatch__class?  Tried on a clone of the old class, with
     the new bases and with the new bases mapped to their old counterparts (same module and name); None when the
     two answers differ (the case is then outside the oracle's reach)."""
@@ -460,6 +460,14 @@ def bases_assignable(oldc, newc):
     by_name = {(b.__module__, b.__name__): b for b in oldc.__bases__}
     mapped = tuple(by_name.get((b.__module__, b.__name__), b) for b in newc.__bases__)
     r1, r2 = attempt(newc.__bases__), attempt(mapped)
+    if oldmod is not None:
+        def gained(b):
+            cand = vars(oldmod).get(b.__name__)
+            ok = isinstance(cand, type) and cand.__module__ == b.__module__ and cand.__name__ == b.__name__
+            return cand if ok and b.__module__ == oldmod.__name__ else b
+        mapped2 = tuple(by_name.get((b.__module__, b.__name__)) or gained(b) for b in newc.__bases__)
+        if attempt(mapped2) != r2:
+            return None
     return r1 if r1 == r2 else None
 
 
@@ -730,7 +738,7 @@ def _impl_case(c, LP):
                 for o1 in olds:
                     for o2 in olds:
                         if o1 is not o2 and o1.__name__ == o2.__name__:
-                            ok = bases_assignable(o1, o2)
+                            ok = bases_assignable(o1, o2, old)
                             if ok is None:
                                 raise Unsupported("__bases__ assignment oracle undecided")
                             if ok:
@@ -903,7 +911,8 @@ def model_exprs(cases, impl):
             K = {k: i + 1 for i, k in enumerate(sorted(keys))}
             im["_K"] = K
             h = c_heap(recs, K)
-            names = "(mkNames %s %s %s %s)" % tuple(cm.cN(K[k]) for k in SPECIAL[:4])
+            names = "(mkNames %s %s %s %s %s)" % (tuple(cm.cN(K[k]) for k in SPECIAL[:4]) +
+                                                   (cm.cN(recs[str(im["roots"][0])][1]),))
             bases = cm.clist([cm.cpair(cm.cN(a), cm.cN(b)) for a, b in im["bases_ok"]])
             reg = cm.clist([cm.cpair(cm.cN(K[im["name"]]), cm.cN(im["roots"][0]))])
             exprs.append("run_xreload %s %s %s %s %s %s %s %s %s None %s" % (
@@ -917,7 +926,7 @@ def model_exprs(cases, impl):
             im["_KF"] = K
             h = c_heap(recs, K)
             mod_addr = [int(a) for a, r in recs.items() if r[0] == "module"][0]
-            names = "(mkNames %s %s %s %s)" % tuple(cm.cN(K[k]) for k in SPECIAL[:4])
+            names = "(mkNames %s %s %s %s 0%%N)" % tuple(cm.cN(K[k]) for k in SPECIAL[:4])
             reg = cm.clist([cm.cpair(cm.cN(K[im["name"]]), cm.cN(mod_addr))])
             fl = im["fails"][len(im["fails"]) // 2]
             exprs.append("run_xreload %s %s %s %s %s [] %s %s 0%%N (Some (%s, %s)) %s" % (
@@ -1021,7 +1030,7 @@ def oracle_case(ctx, c, im):
                 ctx.known_hit("F20", "a closure cell of %r holds a different plain value: the function is replaced, references captured earlier keep the old behaviour" % n)
     for n, b in im.get("repointed", []):
         if is_gained_base_stale(n, b, c):
-            ctx.known_hit("C16-g", "class %r keeps its identity and gains the same-module base %r: __bases__ holds the scratch copy of it (issubclass(m.%s, m.%s) is False)" % (n, b, n, b))
+            ctx.violation("class_bases_identity", c, "class %r keeps its identity and gains the same-module base %r: __bases__ holds the scratch copy of it (issubclass(m.%s, m.%s) is False)" % (n, b, n, b))
         else:
             ctx.violation("class_bases_identity", c, "class %r keeps its identity but the retained base %r in its __bases__ is the scratch module's copy: issubclass(m.%s, m.%s) is False" % (n, b, n, b))
     # names
@@ -1045,13 +1054,8 @@ def oracle_case(ctx, c, im):
 
 
 def classify_namespace_difference(n, a, b, c, im=None):
-    gained = {bn for cn, bn in (im or {}).get("repointed", []) if is_gained_base_stale(cn, bn, c)}
-    if gained:
-        txt = json.dumps(a)
-        for bn in gained:
-            txt = txt.replace("%s (NOT the class the module binds)" % bn, bn)
-        if json.loads(txt) == b:
-            return "C16-g gained same-module base is the scratch copy"
+    if (im or {}).get("repointed"):
+        return None                     # a kept class with a stale base: reported as class_bases_identity
     if is_new_object_of_scratch_class(a, b):
         return "C16-h an object created by the new source refers to the scratch copy of a class that the module keeps"
     return None
